@@ -52,7 +52,10 @@ Init == l = 1 /\ rej = <<>> /\ expect = [i \in {} |-> 0] /\ skipping = FALSE
 Step ==
   /\ l <= Len(Trace) /\ l' = l + 1
   /\ LET e == Trace[l] IN
-     IF e.op = "bank_reset" THEN expect' = [i \in {} |-> 0] /\ skipping' = FALSE /\ UNCHANGED rej
+     IF e.op = "driver_crash" THEN
+          /\ rej' = Append(rej, [line |-> l, seq |-> e.seq, key |-> e.key, why |-> <<"the process using the library was killed by the Go runtime (memory corruption): " \o e.detail>>])
+          /\ UNCHANGED <<expect, skipping>>
+     ELSE IF e.op = "bank_reset" THEN expect' = [i \in {} |-> 0] /\ skipping' = FALSE /\ UNCHANGED rej
      ELSE IF e.op = "retain" THEN
           LET f == FailsRetain(e) IN
           /\ rej' = IF f = <<>> THEN rej ELSE Append(rej, [line |-> l, seq |-> e.seq, key |-> e.key, why |-> f])
